@@ -106,9 +106,9 @@ Proof.
   assert (Hlen : (pos < length gblk)%nat) by (apply nth_error_Some; congruence).
   split.
   - enter F_lbuf_globset cf_lbuf_globset. xstep. xfld Hb Hp. xfld Hb Hp. xpos.
-    rewrite (load_cell m bg gblk pos _ _ Hg Hc eq_refl). xstep. rewrite shl1_ok by lia. xstep.
+    rewrite (fld_load m bg gblk pos _ _ Hg Hc eq_refl). xstep. rewrite shl1_ok by lia. xstep.
     fold (sx32 (ExDefs.lgl x)). rewrite (proj1 (set_fact dep _ Hdep H256)).
-    rewrite (store_cell m bg gblk pos _ _ Hg Hlen eq_refl). reflexivity.
+    rewrite (fld_store m bg gblk pos _ _ Hg Hlen eq_refl). reflexivity.
   - unfold ExDefs.lbuf_globset, ExDefs.with_lns. cbn [ExDefs.lns].
     apply (glob_rep_upd m bg gblk (ExDefs.lns lb) pos x (fun g => N.setbit g dep) R Hx). apply set_fact; assumption.
 Qed.
@@ -127,10 +127,10 @@ Proof.
   destruct (get_fact dep _ Hdep H256) as (F1 & F2 & F3).
   unfold ExDefs.lbuf_globget. rewrite Hx. cbn [fst snd]. split.
   - enter F_lbuf_globget cf_lbuf_globget. xstep. xfld Hb Hp. xpos.
-    rewrite (load_cell m bg gblk pos _ _ Hg Hc eq_refl). xstep. rewrite shl1_ok by lia. xstep.
-    xfld Hb Hp. xfld Hb Hp. xpos. rewrite (load_cell m bg gblk pos _ _ Hg Hc eq_refl). xstep. rewrite shl1_ok by lia. xstep.
+    rewrite (fld_load m bg gblk pos _ _ Hg Hc eq_refl). xstep. rewrite shl1_ok by lia. xstep.
+    xfld Hb Hp. xfld Hb Hp. xpos. rewrite (fld_load m bg gblk pos _ _ Hg Hc eq_refl). xstep. rewrite shl1_ok by lia. xstep.
     fold (sx32 (ExDefs.lgl x)). rewrite F1.
-    rewrite (store_cell m bg gblk pos _ _ Hg Hlen eq_refl). xstep. rewrite F2. reflexivity.
+    rewrite (fld_store m bg gblk pos _ _ Hg Hlen eq_refl). xstep. rewrite F2. reflexivity.
   - unfold ExDefs.with_lns. cbn [ExDefs.lns].
     apply (glob_rep_upd m bg gblk (ExDefs.lns lb) pos x (fun g => N.clearbit g dep) R Hx). exact F3.
 Qed.
@@ -149,9 +149,9 @@ Proof.
   intros Hb Hp R Hx Hdep. pose proof R as [Hg Hcells]. destruct (Hcells pos x Hx) as [H256 Hc].
   assert (Hlen : (pos < length gblk)%nat) by (apply nth_error_Some; congruence).
   enter F_lbuf_globset cf_lbuf_globset. xstep. xfld Hb Hp. xfld Hb Hp. xpos.
-  rewrite (load_cell m bg gblk pos _ _ Hg Hc eq_refl). xstep. rewrite shl1_ok by lia. xstep.
+  rewrite (fld_load m bg gblk pos _ _ Hg Hc eq_refl). xstep. rewrite shl1_ok by lia. xstep.
   fold (sx32 (ExDefs.lgl x)). rewrite (set_hi_fact dep _ Hdep H256).
-  rewrite (store_same m bg gblk pos _ _ Hg Hc eq_refl). reflexivity.
+  rewrite (fld_store_same m bg gblk pos _ _ Hg Hc eq_refl). reflexivity.
 Qed.
 Theorem tr_lbuf_globget_high m bl blk bg gblk (lb : ExDefs.lbuf) pos x dep d fuel :
   nth_error m bl = Some blk -> nth_error blk L_ln_glob = Some (VPtr bg 0) -> glob_rep m bg gblk (ExDefs.lns lb) ->
@@ -163,10 +163,10 @@ Proof.
   assert (Hlen : (pos < length gblk)%nat) by (apply nth_error_Some; congruence).
   destruct (get_hi_fact dep _ Hdep H256) as (F1 & F2).
   enter F_lbuf_globget cf_lbuf_globget. xstep. xfld Hb Hp. xpos.
-  rewrite (load_cell m bg gblk pos _ _ Hg Hc eq_refl). xstep. rewrite shl1_ok by lia. xstep.
-  xfld Hb Hp. xfld Hb Hp. xpos. rewrite (load_cell m bg gblk pos _ _ Hg Hc eq_refl). xstep. rewrite shl1_ok by lia. xstep.
+  rewrite (fld_load m bg gblk pos _ _ Hg Hc eq_refl). xstep. rewrite shl1_ok by lia. xstep.
+  xfld Hb Hp. xfld Hb Hp. xpos. rewrite (fld_load m bg gblk pos _ _ Hg Hc eq_refl). xstep. rewrite shl1_ok by lia. xstep.
   fold (sx32 (ExDefs.lgl x)). rewrite F1.
-  rewrite (store_same m bg gblk pos _ _ Hg Hc eq_refl). xstep. rewrite F2. reflexivity.
+  rewrite (fld_store_same m bg gblk pos _ _ Hg Hc eq_refl). xstep. rewrite F2. reflexivity.
 Qed.
 Theorem tr_lbuf_globset_overflow m bl blk bg gblk (lb : ExDefs.lbuf) pos x dep d fuel :
   nth_error m bl = Some blk -> nth_error blk L_ln_glob = Some (VPtr bg 0) -> glob_rep m bg gblk (ExDefs.lns lb) ->
@@ -175,7 +175,7 @@ Theorem tr_lbuf_globset_overflow m bl blk bg gblk (lb : ExDefs.lbuf) pos x dep d
 Proof.
   intros Hb Hp R Hx Hdep. pose proof R as [Hg Hcells]. destruct (Hcells pos x Hx) as [H256 Hc].
   enter F_lbuf_globset cf_lbuf_globset. xstep. xfld Hb Hp. xfld Hb Hp. xpos.
-  rewrite (load_cell m bg gblk pos _ _ Hg Hc eq_refl). xstep.
+  rewrite (fld_load m bg gblk pos _ _ Hg Hc eq_refl). xstep.
   destruct (Z.leb_spec 0 (Z.of_N dep)); [|lia]. destruct (Z.ltb_spec (Z.of_N dep) 32) as [L|L]; cbn [andb]; [|reflexivity].
   assert (dep = 31%N) as -> by lia. reflexivity.
 Qed.
